@@ -8,6 +8,7 @@
 #include <memory>
 #include <stdexcept>
 #include <string>
+#include <vector>
 
 #include "shape.hpp"
 
@@ -41,6 +42,7 @@ struct MockT {
   MAKE_MOCK1(s, std::string(std::string&));
   MAKE_CONST_MOCK1(k, const int&(const int&));
   MAKE_MOCK0(z, void());
+  MAKE_MOCK1(v, void(const std::vector<int>&));
 };
 
 using EP = std::unique_ptr<trompeloeil::expectation>;
@@ -95,6 +97,7 @@ int thr_int(int id, int snap);
 inline int val(int x) { return x; }
 inline int val(const std::unique_ptr<Tracked>& p) { return p ? p->v : -1; }
 int val(const std::string& s);
+inline int val(const std::vector<int>& v) { return v.empty() ? -1 : v.front(); }
 inline int val(trompeloeil::illegal_argument const&) { return 0; }
 
 template <class T> inline const void* ad(const T& t) { return &t; }
